@@ -32,7 +32,9 @@ theorem source_shape :
 interpreted by the model** (`Model/C14.lean`: `W`): what is copied and reversed, the `h.Write` sequences
 (`temp_key`, `data_with_padding`), cipher key / IV / source of the IGE calls, the xor operands, the
 order of the `append`s building `data_with_hash` and `key_aes_encrypted`, the slices taken by the
-decoder (`[:32]`, `[32:]`, `[:192]`, `[192:]`) and what is compared with the hash. -/
+decoder (`[:32]`, `[32:]`, `[:192]`, `[192:]`), what is compared with the hash, and **every use of the
+random source** — all `io.ReadFull`, which is what makes the byte-tape model valid for every chunking
+of the reader (`rsaPad` / `rsaEncryptHashed` answer `shortRead` otherwise). -/
 theorem pad_operands_are_spec :
     Facts.C14.encCopies = [(.dataWithPadding, .data), (.dataPadReversed, .dataWithPadding)] ∧
     Facts.C14.encReverseArg = [.dataPadReversed] ∧
@@ -48,15 +50,17 @@ theorem pad_operands_are_spec :
     Facts.C14.decSum256Arg = [.aesEncrypted] ∧ Facts.C14.decXorArgs = [.tempKey, .tempKeyXor, .aesEncryptedHash] ∧
     Facts.C14.decCipherKey = [.tempKey] ∧ Facts.C14.decIgeArgs = [.zeroIV, .dataWithHash, .aesEncrypted] ∧
     Facts.C14.decReverseArg = [.dataWithPadding] ∧ Facts.C14.decHashWrites = [.tempKey, .dataWithPadding] ∧
-    Facts.C14.decCompare = .hash ∧ Facts.C14.decCompareWith = "h.Sum(nil)" :=
-  ⟨rfl, rfl, rfl, rfl, rfl, rfl, rfl, rfl, rfl, rfl, rfl, rfl, rfl, rfl, rfl, rfl, rfl, rfl, rfl⟩
+    Facts.C14.decCompare = .hash ∧ Facts.C14.decCompareWith = "h.Sum(nil)" ∧
+    Facts.C14.padRandomReads = [("io.ReadFull", "dataWithPadding[len(data):]"), ("io.ReadFull", "tempKey")] ∧
+    Facts.C14.hashedRandomReads = [("io.ReadFull", "dataWithHash[:]")] :=
+  ⟨rfl, rfl, rfl, rfl, rfl, rfl, rfl, rfl, rfl, rfl, rfl, rfl, rfl, rfl, rfl, rfl, rfl, rfl, rfl, rfl, rfl⟩
 
 /-! ### RSA_PAD -/
 
 /-- Size limit: data longer than 144 bytes is refused, up to 144 bytes never for its length. -/
 theorem rsaPad_limit (P : Prims) (Q : NumPrims) (key : PubKey) (data tape : Bytes) :
     rsaPad P Q key data tape = .error .tooLong ↔ 144 < data.length := by
-  unfold rsaPad
+  rw [rsaPad_eq_core]; unfold rsaPadCore
   rw [rsaPadDataLimit_eq]
   by_cases h : 144 < data.length
   · simp [h]
@@ -86,7 +90,7 @@ theorem rsaPad_roundtrip (P : Prims) (hP : LawfulPrims P) (Q : NumPrims) (hQ : L
     (data tape c : Bytes) (h : rsaPad P Q pub data tape = .ok c) :
     data.length ≤ 144 ∧ c.length = 256 ∧
       decodeRsaPad P Q priv c = .ok (data ++ tape.take (192 - data.length)) := by
-  unfold rsaPad at h
+  rw [rsaPad_eq_core] at h; unfold rsaPadCore at h
   rw [rsaPadDataLimit_eq, dataWithPaddingLength_eq] at h
   split at h
   · cases h
@@ -112,7 +116,7 @@ theorem rsaPad_is_spec (P : Prims) (Q : NumPrims) (hQ : LawfulNum Q) (key : PubK
           (chunks32 k (tape.drop (192 - data.length))) with
       | some c => .ok c
       | none => .error .tape := by
-  unfold rsaPad Spec.rsaPad Spec.dataWithPadding
+  rw [rsaPad_eq_core]; unfold rsaPadCore Spec.rsaPad Spec.dataWithPadding
   rw [rsaPadDataLimit_eq, dataWithPaddingLength_eq]
   have h1 : ¬ data.length > 144 := by omega
   have h2 : ¬ tape.length < 192 - data.length := by omega
@@ -156,7 +160,7 @@ theorem hashed_roundtrip (P : Prims) (hP : LawfulPrims P) (Q : NumPrims) (hQ : L
     (hcoll : ∀ k, data.length < k → k ≤ 235 →
       P.sha1 ((data ++ (tape.take 255).drop (20 + data.length)).take k) ≠ P.sha1 data) :
     data.length ≤ 235 ∧ rsaDecryptHashed P Q priv c = .ok data := by
-  unfold rsaEncryptHashed at h
+  rw [rsaEncryptHashed_eq_core] at h; unfold rsaEncryptHashedCore at h
   rw [rsaDataLen_eq, rsaWithHashLen_eq, sha1Size_eq] at h
   split at h
   · cases h
